@@ -605,6 +605,81 @@ func verifC17Post(idx, capacity int, admin bool) *verifC17Row {
 	return row
 }
 
+// A watcher whose queue is full while the request is handled: the request is dropped at once. Two measurements on the real dispatcher
+// (wall-clock time is part of the statement here: "without blocking the dispatcher"), each decided by a majority of trials so that an
+// unlucky scheduling of the dispatcher's goroutine cannot raise an alarm:
+//   (a) 40 requests for the watcher with the full queue, then one for an idle watcher: compared with the same 41 requests when the
+//       40 name a chain without a watcher (dropped as well);
+//   (b) a request sent while the queue is full, room made 2 ms later: the request must not appear in the queue afterwards.
+func verifC17Grace() map[string]interface{} {
+	row := map[string]interface{}{"k": "grace", "run": 0}
+	mon := []string{}
+	slow, late := 0, 0
+	var worst time.Duration
+	const trials = 5
+	for tr := 0; tr < trials; tr++ {
+		ctx, cancel := context.WithCancel(context.Background())
+		mock := clock.NewMock()
+		reqC := make(chan *gossipv1.ObservationRequest)
+		fullC := make(chan *gossipv1.ObservationRequest, 1)
+		idleC := make(chan *gossipv1.ObservationRequest, 4)
+		chains := map[vaa.ChainID]chan *gossipv1.ObservationRequest{vaa.ChainIDEthereum: fullC, vaa.ChainIDAlephium: idleC}
+		go handleReobservationRequests(ctx, mock, zap.NewNop(), reqC, chains)
+		stuck := false
+		post := func(chain uint32, a, b byte) {
+			select {
+			case reqC <- &gossipv1.ObservationRequest{ChainId: chain, TxHash: []byte{0xC1, 0x7E, a, b, byte(tr)}}:
+			case <-time.After(verifC17Deadline):
+				stuck = true
+			}
+		}
+		burst := func(chain uint32, tag byte) time.Duration {
+			t0 := time.Now()
+			for i := 0; i < 40 && !stuck; i++ {
+				post(chain, tag, byte(i))
+			}
+			post(uint32(vaa.ChainIDAlephium), tag, 0xFF)
+			select {
+			case <-idleC:
+			case <-time.After(verifC17Deadline):
+				stuck = true
+			}
+			return time.Since(t0)
+		}
+		post(uint32(vaa.ChainIDEthereum), 0, 0)
+		for i := 0; i < 2000 && len(fullC) == 0; i++ {
+			time.Sleep(100 * time.Microsecond)
+		}
+		base := burst(4711, 1) // no watcher for this chain
+		full := burst(uint32(vaa.ChainIDEthereum), 2)
+		if full > worst {
+			worst = full
+		}
+		if stuck || full > base+150*time.Millisecond {
+			slow++
+		}
+		if !stuck && len(fullC) == 1 {
+			post(uint32(vaa.ChainIDEthereum), 3, 0)
+			time.Sleep(2 * time.Millisecond)
+			<-fullC
+			time.Sleep(60 * time.Millisecond)
+			if len(fullC) > 0 {
+				late++
+			}
+		}
+		cancel()
+	}
+	if slow*2 > trials {
+		mon = append(mon, fmt.Sprintf("the dispatcher was blocked by requests for a watcher whose queue is full: 40 such requests held up a request for an idle watcher (up to %v; more than 150 ms longer than 40 requests for a chain without a watcher) in %d of %d trials", worst.Round(time.Millisecond), slow, trials))
+	}
+	if late*2 > trials {
+		mon = append(mon, fmt.Sprintf("the dispatcher blocked on a full watcher queue instead of dropping: a request that found the queue full was delivered after room was made 2 ms later, in %d of %d trials", late, trials))
+	}
+	row["mon"] = mon
+	row["slow_trials"], row["late_trials"], row["trials"] = slow, late, trials
+	return row
+}
+
 func TestVerifC17(t *testing.T) {
 	f, err := os.Create(os.Getenv("VERIF_OUT"))
 	if err != nil {
@@ -665,5 +740,6 @@ func TestVerifC17(t *testing.T) {
 	for i, c := range []int{0, 1, 3} {
 		enc.Encode(verifC17Post(5+i, c, true))
 	}
+	enc.Encode(verifC17Grace())
 	enc.Encode(map[string]interface{}{"k": "consts", "chansize": common.ObsvReqChannelSize})
 }
